@@ -32,11 +32,11 @@ def prop(pid, **kw):
 # fields of the U record each property's correspondence is projected on
 prop('C09',
      modules=['WitnessVerif.Props.C09'],
-     scenarios=lambda tier: hist_scenarios(tier) + [sc('lib')],
+     scenarios=lambda tier: hist_scenarios(tier) + [sc('lib'), sc('fault')],
      diverge={'U': {'err', 'ret', 'oracle'}, 'VC': None},
      nontrivial=lambda u: u.get('pre') not in ('-', None) and u.get('err') not in ('unknownLog', 'noValidSig'),
      rule='U records (Witness.Update on the real code): exhaustive (stored, submitted, old) in -1..N x 0..N x 0..N+1,2^64-1 x {same,different root} x 8 proof classes, plus random histories with sizes up to 2^63; a case is non-trivial when a checkpoint is stored and the request authenticates; distinct by hash of (old, checkpoint text, proof, stored text)',
-     assumptions=['storage is fault-free in this property (faults are C07)'],
+     assumptions=['the rule list is judged on steps whose storage calls succeed (faulty steps are C07); the fault scenario is included so that the step AFTER a failed write is judged against what is really stored'],
      exhaustive=True)
 
 
@@ -236,10 +236,10 @@ prop('C17',
 
 prop('C12',
      modules=['WitnessVerif.Props.C12'],
-     scenarios=lambda tier: [sc('isolation'), sc('cfgmap'), sc('lib'), sc('bastion', n=10 if tier == 'quick' else 100), sc('dist', n=150 if tier == 'quick' else 2000), sc('httpapi', n=10 if tier == 'quick' else 100)],
-     diverge={'ISO': None, 'CA': None, 'U': {'accept', 'post', 'oracle'}, 'H': {'status', 'post'}, 'DS': {'puts'}, 'A': None},
+     scenarios=lambda tier: [sc('isolation'), sc('conclogs'), sc('cfgmap'), sc('lib'), sc('bastion', n=10 if tier == 'quick' else 100), sc('dist', n=150 if tier == 'quick' else 2000), sc('httpapi', n=10 if tier == 'quick' else 100)],
+     diverge={'ISO': None, 'CA': None, 'U': {'accept', 'post', 'oracle'}, 'H': {'status', 'post'}, 'DS': {'puts'}, 'A': None, 'LIN': None},
      nontrivial_line=lambda k, line: k in ('ISO', 'CA'),
-     rule='per-log histories (honest chains with fork attempts, other logs\' checkpoints under this ID, stale requests; 2..5 logs of which three share a key) are run interleaved (random order-preserving merge) and each alone on fresh witnesses, outcomes and final text compared; synthetic configurations through AsLogMap/config.NewLog (duplicate origins, same key name with different keys, ECDSA and malformed keys) followed by cross-key submissions to the witness built from that map; IDs observed at the bastion lookup, the distributor path and the HTTP route compared with hex(sha256("o:"+origin)) computed in Lean',
+     rule='per-log histories (honest chains with fork attempts, other logs\' checkpoints under this ID, stale requests; 2..5 logs of which three share a key) are run interleaved (random order-preserving merge) and each alone on fresh witnesses, outcomes and final text compared; controlled interleavings (depth-first over storage-call schedules, in-memory and SQLite) of requests naming two different logs, each log's projection of the history having to be explained by that log alone and no request failing because of a request naming another log; synthetic configurations through AsLogMap/config.NewLog (duplicate origins, same key name with different keys, ECDSA and malformed keys) followed by cross-key submissions to the witness built from that map; IDs observed at the bastion lookup, the distributor path and the HTTP route compared with hex(sha256("o:"+origin)) computed in Lean',
      exhaustive=False)
 
 prop('C16',
